@@ -15,7 +15,8 @@ type c18Scenario struct {
 	Client     ClientOpts `json:"client"`
 	IntervalNs int64      `json:"interval_ns"`
 	Busy       bool       `json:"busy"`
-	End        string     `json:"end"` // none | cut | disconnect | stream-error | ka-write-fails
+	End        string     `json:"end"` // none | cut | disconnect | stream-error | ka-write-fails | server-close
+	Block      bool       `json:"event_callback_blocks"`
 	FailAt     int        `json:"fail_keepalive_k,omitempty"`
 	EndAfterNs int64      `json:"end_after_ns,omitempty"`
 	Ticks      int        `json:"observe_ticks"`
@@ -42,7 +43,8 @@ func runC18(e *Engine, g G, o RunOpt) RunInfo {
 	sc.Client.KeepaliveNs = sc.IntervalNs
 	sc.Client.SM = g.Pct("sm", 30)
 	sc.Busy = g.Bool("busy")
-	sc.End = []string{"none", "cut", "disconnect", "stream-error", "ka-write-fails"}[g.Weighted("end", 2, 3, 3, 2, 4)]
+	sc.End = []string{"none", "cut", "disconnect", "stream-error", "ka-write-fails", "server-close"}[g.Weighted("end", 2, 3, 3, 2, 4, 3)]
+	sc.Block = sc.End != "none" && g.Pct("callback-blocks", 30)
 	sc.Ticks = g.Range("ticks", 1, 9)
 	if sc.End == "ka-write-fails" {
 		sc.FailAt = g.Range("failk", 1, 8)
@@ -75,6 +77,16 @@ func runC18(e *Engine, g G, o RunOpt) RunInfo {
 		established = true
 		t0 = e.Now()
 		cli := s.Cli
+		if sc.Block {
+			// the application stays in the callback that announces the end (as a reconnecting StreamManager does)
+			s.W.Client.SetHandler(s.W.EventRecorder(func(ev xmpp.Event) error {
+				st := xmpp.VerifEventState(ev)
+				if st == xmpp.StateDisconnected || st == xmpp.StateStreamError {
+					e.Sleep(3*interval + time.Second)
+				}
+				return nil
+			}))
+		}
 		cli.TrackWrites = true
 		cli.OnClose = func() { closedAt = e.Now() }
 		if sc.FailAt > 0 {
@@ -116,6 +128,9 @@ func runC18(e *Engine, g G, o RunOpt) RunInfo {
 			case "stream-error":
 				s.Conn.Send("<stream:error><conflict xmlns='" + nsStreams + "'/></stream:error>")
 				e.Fault("stream.error")
+			case "server-close":
+				s.Conn.Send("</stream:stream>")
+				e.Fault("server.graceful_close")
 			}
 			// the session is over once the loss was reported / Disconnect returned
 			if sc.End == "disconnect" {
@@ -136,6 +151,9 @@ func runC18(e *Engine, g G, o RunOpt) RunInfo {
 				}
 			}
 			e.Sleep(3*interval + time.Second)
+			if sc.Block {
+				e.Sleep(3*interval + 2*time.Second)
+			}
 		}
 		live = e.LiveTasks()
 	})
